@@ -194,7 +194,36 @@ def collect_selects(t, acc, bound=frozenset()):
             acc.add((s[2], s[3]))
 
 
+def array_component(a):
+    """heap component an array term belongs to ('' = unknown: matches everything)."""
+    seen = 0
+    while seen < 50:
+        seen += 1
+        if a[0] == 'v':
+            n = a[1]
+            i = n.find('|')
+            if i < 0:
+                return ''
+            n = n[i + 1:]
+            j = n.rfind('!')
+            if j >= 0:
+                n = n[:j]
+            return n.rstrip('@')
+        if a[0] == 'a' and a[1] == 'store':
+            a = a[2]
+            continue
+        if a[0] == 'a' and a[1] == 'ite':
+            a = a[3]
+            continue
+        if a[0] == 'a' and a[1] == 'select':
+            a = a[2]
+            continue
+        return ''
+    return ''
+
+
 def ground_index_terms(ts, include_uf=False, bound_names=()):
+    """{component: {linear form: term}} of the ground index terms at which arrays are read"""
     idx = {}
     for t in ts:
         if t[0] == 'q':
@@ -204,11 +233,11 @@ def ground_index_terms(ts, include_uf=False, bound_names=()):
                 continue
             if s[0] == 'a' and s[1] == 'select':
                 if T.sort_of(s[3]) == T.INT and not bound_in(s[3], bound_names):
-                    idx.setdefault(T.linear(s[3]), s[3])
+                    idx.setdefault(array_component(s[2]), {}).setdefault(T.linear(s[3]), s[3])
             elif include_uf and s[0] == 'a' and s[1].startswith('uf:spec_'):
                 for a in s[2:]:
                     if a[0] != 'b' and T.sort_of(a) == T.INT and not bound_in(a, bound_names):
-                        idx.setdefault(T.linear(a), a)
+                        idx.setdefault(s[1], {}).setdefault(T.linear(a), a)
     return idx
 
 
@@ -258,7 +287,7 @@ def split_quants(hyps):
     return ground, quants
 
 
-def instantiate(hyps, goal_parts, rounds=2, per_quant=60, cap=1200):
+def instantiate(hyps, goal_parts, rounds=2, per_quant=400, cap=8000, unfold=None):
     """returns (ground hyps incl. instances, had_quantifiers)."""
     ground, quants = split_quants(hyps)
     if not quants:
@@ -284,32 +313,68 @@ def instantiate(hyps, goal_parts, rounds=2, per_quant=60, cap=1200):
             pats = set()
             for s in T.subterms(body):
                 if s[0] == 'a' and s[1] == 'select':
-                    pats.add(s[3])
+                    pats.add((array_component(s[2]), s[3]))
                 elif s[0] == 'a' and s[1].startswith('uf:spec_'):
                     for a in s[2:]:
                         if a[0] != 'b' and T.sort_of(a) == T.INT:
-                            pats.add(a)
+                            pats.add((s[1], a))
+
+            def pool(comp):
+                if comp == '':
+                    out = {}
+                    for d_ in idx.values():
+                        out.update(d_)
+                    return out
+                out = dict(idx.get(comp, {}))
+                out.update(idx.get('', {}))
+                return out
             cands = {n: {} for n in bnames}
-            for pexp in pats:
+            multi = []
+            for comp, pexp in sorted(pats, key=lambda x: (x[0], len(repr(x[1])), repr(x[1]))):
                 fv = T.free_vars(pexp)
                 inv = [n for n in bnames if n in fv]
-                if len(inv) != 1:
-                    continue
-                n = inv[0]
-                for e in idx.values():
-                    sol = T.solve_for(n, pexp, e)
-                    if sol is not None:
-                        cands[n].setdefault(T.linear(sol), sol)
+                if len(inv) == 1:
+                    n = inv[0]
+                    for e in sorted(pool(comp).values(), key=lambda x: (len(repr(x)), repr(x))):
+                        sol = T.solve_for(n, pexp, e)
+                        if sol is not None:
+                            cands[n].setdefault(T.linear(sol), sol)
+                elif len(inv) == 2:
+                    multi.append((comp, pexp, inv))
+            # patterns over two bound variables: fix one from its single-variable candidates, solve for the other;
+            # the resulting PAIRS are instantiated as such (no cross product)
+            pairs = []
+            for comp, pexp, inv in multi:
+                for a, b in ((inv[0], inv[1]), (inv[1], inv[0])):
+                    if cands[b]:
+                        for bv in sorted(cands[b].values(), key=lambda x: (len(repr(x)), repr(x)))[:40]:
+                            p2 = T.substitute(pexp, {b: bv})
+                            for e in sorted(pool(comp).values(), key=lambda x: (len(repr(x)), repr(x))):
+                                sol = T.solve_for(a, p2, e)
+                                if sol is not None:
+                                    pairs.append({a: sol, b: bv})
+            combos = []
+            if len(bnames) == 2 and pairs:
+                seenp = set()
+                for pr_ in pairs:
+                    key = tuple(T.linear(pr_[n]) for n in bnames)
+                    if key in seenp:
+                        continue
+                    seenp.add(key)
+                    combos.append(tuple(pr_[n] for n in bnames))
+                combos = combos[:240]
             lists = [sorted(cands[n].values(), key=lambda x: (len(repr(x)), repr(x))) for n in bnames]
-            if any(not l for l in lists):
+            if all(lists):
+                total = 1
+                for l in lists:
+                    total *= len(l)
+                if total > per_quant:
+                    k = max(1, int(per_quant ** (1.0 / len(lists))))
+                    lists = [l[:k] for l in lists]
+                combos.extend(itertools.product(*lists))
+            if not combos:
                 continue
-            total = 1
-            for l in lists:
-                total *= len(l)
-            if total > per_quant:
-                k = max(1, int(per_quant ** (1.0 / len(lists))))
-                lists = [l[:k] for l in lists]
-            for combo in itertools.product(*lists):
+            for combo in combos:
                 key = (q, combo)
                 if key in seen:
                     continue
@@ -324,18 +389,22 @@ def instantiate(hyps, goal_parts, rounds=2, per_quant=60, cap=1200):
         if not new:
             break
         insts.extend(new)
+        if unfold is not None:
+            ground = ground + unfold(new)
     return ground + insts, True
 
 
 # ---------------------------------------------------------------- query building
 
-def build_query(hyps, goal, quantified=False, models=True, extra_instances=True, nlmul=False):
+def build_query(hyps, goal, quantified=False, models=True, extra_instances=True, nlmul=False, unfold=None):
     """Returns (text, info).  Query is sat iff goal can fail under hyps."""
     ghyps, concl = split_goal(goal)
     all_h = list(hyps) + ghyps
     info = {'instantiated': False}
+    if unfold is not None:
+        all_h = all_h + unfold(all_h + [concl])
     if not quantified:
-        hs, inst = instantiate(all_h, [concl])
+        hs, inst = instantiate(all_h, [concl], unfold=unfold)
         info['instantiated'] = inst
     else:
         hs = all_h
@@ -477,3 +546,59 @@ def parse_model(output):
         else:
             m[name] = (val == 'true')
     return m
+
+
+def race(jobs, timeout, tmpdir=None, stop_on=('unsat',)):
+    """jobs: list of (label, solver, text).  Runs them all in parallel, returns as soon as one answers with a result
+    in stop_on (others are killed).  Returns (winner_label or None, {label: (result, output, time)})."""
+    procs = []
+    files = []
+    t0 = time.time()
+    for label, solver, text in jobs:
+        fd, path = tempfile.mkstemp(suffix='.smt2', dir=tmpdir)
+        with os.fdopen(fd, 'w') as f:
+            f.write(text)
+        files.append(path)
+        p = subprocess.Popen(SOLVERS[solver](path, timeout), stdout=subprocess.PIPE, stderr=subprocess.PIPE,
+                             universal_newlines=True)
+        procs.append((label, solver, p))
+    results = {}
+    winner = None
+    try:
+        pending = list(procs)
+        while pending and winner is None:
+            for item in list(pending):
+                label, solver, p = item
+                if p.poll() is not None:
+                    out = p.stdout.read()
+                    first = out.strip().split('\n', 1)[0].strip() if out.strip() else ''
+                    if first not in ('sat', 'unsat', 'unknown'):
+                        first = 'timeout' if ('timeout' in out or 'interrupted' in out.lower() or not out.strip()) else 'error:' + out.strip()[:200]
+                    results[label] = (first, out, time.time() - t0)
+                    pending.remove(item)
+                    if first in stop_on:
+                        winner = label
+                        break
+            if winner is None and pending:
+                if time.time() - t0 > timeout + 5:
+                    break
+                time.sleep(0.01)
+    finally:
+        for label, solver, p in procs:
+            if p.poll() is None:
+                try:
+                    p.kill()
+                except Exception:
+                    pass
+                results.setdefault(label, ('timeout', '', time.time() - t0))
+            try:
+                p.stdout.close()
+                p.stderr.close()
+            except Exception:
+                pass
+        for f in files:
+            try:
+                os.unlink(f)
+            except Exception:
+                pass
+    return winner, results
